@@ -50,7 +50,11 @@ def run(tier, seed):
             cfg = dict(cfg, dict="tiny", pagebuf="tiny")
             prior = [o for o in prior if o["op"] != "close"] + [{"op": "write", "n": 65}, {"op": "write", "n": 3}]
             fail = -1
-        scenarios.append({"id": len(scenarios) + 1, "cfg": cfg, "prior": prior, "h": other["ops"], "failAt": fail})
+        h = list(other["ops"])
+        if len(scenarios) % 5 == 2:
+            # a second directed family: some rows of the new file arrive through WriteRowGroup as a sorted buffer
+            h = [dict(o, op="wrg") if o["op"] == "write" and k % 2 == 0 else o for k, o in enumerate(h)]
+        scenarios.append({"id": len(scenarios) + 1, "cfg": cfg, "prior": prior, "h": h, "failAt": fail})
     vf.log(f"[C17] X: {x.distinct} states; scenarios {len(scenarios)}")
 
     # both builds run every scenario; the monitor joins them by scenario key
@@ -107,7 +111,7 @@ def run(tier, seed):
 
 
 def c01_short(ops):
-    return " ".join({"write": "W", "flush": "F", "close": "C", "colflush": "P"}[o["op"]] + str(o.get("n", o.get("c", ""))) for o in ops)
+    return " ".join({"write": "W", "flush": "F", "close": "C", "colflush": "P", "wrg": "G"}[o["op"]] + str(o.get("n", o.get("c", ""))) for o in ops)
 
 
 def replay(path, seed):
